@@ -3,7 +3,7 @@
    [labs s : key path -> option lock]; a lock is (holder, waiting clients in order with
    their pending acquire requests), so "at most one holder per key" holds by construction and
    the theorems say how each request changes that function and which requests it confirms. *)
-From WB Require Import Base.Str Base.Json Model.Key Model.Store Model.Core Proofs.StoreFacts Proofs.LockFacts Proofs.LockHistory.
+From WB Require Import Base.Str Base.Json Model.Key Model.Store Model.Core Proofs.StoreFacts Proofs.LockFacts Proofs.LockHistory Proofs.NoCrash Proofs.Unconditional.
 
 (* lock succeeds only on a free key or for the current holder; a refused lock changes nothing *)
 Theorem C06_lock_ok_iff_free_or_mine :
@@ -107,6 +107,16 @@ Theorem C06_confirm_once :
     (forall r, r < next_req s -> In r R \/ exists q c, cpend s q c r).
 Proof. exact confirm_once. Qed.
 Print Assumptions C06_confirm_once.
+
+(* the same without the crash hypothesis: no safe request crashes (C17_no_request_crashes) *)
+Theorem C06_confirm_once_safe :
+  forall ops, Forall safe_op ops ->
+    let s := final init ops in let R := resolved (trace init ops) in
+    NoDup R /\
+    (forall r, In r R -> r < next_req s /\ forall q c, ~ cpend s q c r) /\
+    (forall r, r < next_req s -> In r R \/ exists q c, cpend s q c r).
+Proof. exact confirm_once_safe. Qed.
+Print Assumptions C06_confirm_once_safe.
 
 (* a confirmation goes to the client that holds the key after the step (a waiting request's client, or the
    requester of this very step) ... *)
